@@ -187,13 +187,16 @@ def validate_probabilities(pmf, ops):
     #        ops.zero = -inf for bases greater than 1.
 
     # First find the values which are possibly bad.
-    too_low = pmf < min(zero, one)
-    too_high = pmf > max(zero, one)
+    # Recall ops.zero > ops.one for bases less than 1, so compare each side
+    # with the bound it was tested against.
+    low, high = min(zero, one), max(zero, one)
+    too_low = pmf < low
+    too_high = pmf > high
     if too_low.any() or too_high.any():
         # But 1.000000000000001 is not really bad. So let's keep only the
         # values that are significantly too low or too high.
-        too_low[too_low] = np.logical_not(np.isclose(pmf[too_low], zero))
-        too_high[too_high] = np.logical_not(np.isclose(pmf[too_high], one))
+        too_low[too_low] = np.logical_not(np.isclose(pmf[too_low], low))
+        too_high[too_high] = np.logical_not(np.isclose(pmf[too_high], high))
         if too_low.any() or too_high.any():
             bad = pmf[np.logical_or(too_low, too_high)]
             raise InvalidProbability(bad, ops=ops)
